@@ -177,12 +177,13 @@ package types
 //@ -- a recovered tail serves [base, last]; it may be sealed already (the crash
 //@ -- or Close happened after the sealing append, before the rotation committed).
 //@ -- [assumed-C01]: every acknowledged entry is recovered, so a tail that was
-//@ -- head-truncated to MinIndex still reaches MinIndex. [C03.sealed-nonempty]: an
+//@ -- head-truncated to MinIndex still reaches MinIndex, and its file exists. [C03.sealed-nonempty]: an
 //@ -- index block is only written by an append, after at least one entry.
 //@ interface SegmentFiler.RecoverTail
 //@   assigns g_open
 //@   ensures result1 == nil ==> result0 != nil && result0.base == info.BaseIndex
 //@   ensures[assumed-C01] result1 == nil ==> (result0.last == 0 || result0.last >= info.MinIndex) && (info.MinIndex > info.BaseIndex ==> result0.last >= info.MinIndex)
+//@   ensures[assumed-C01] errors.Is(result1, os.ErrNotExist) ==> info.MinIndex == info.BaseIndex
 //@   ensures[assumed-headroom] result1 == nil ==> result0.last < 0xffffffffffffff00
 //@   ensures[C03.sealed-nonempty] result1 == nil && result0.sealed ==> result0.last != 0
 //@ interface SegmentFiler.Open
